@@ -376,5 +376,75 @@ func TestVerifRLP(t *testing.T) {
 			w.emit(ev)
 		}
 	}
+	// typed values: "for every supported value, decoding its encoding returns an equal value" - Go values of the supported kinds
+	// (byte arrays of every small length with 0x00 / 0x7f / 0x80 / 0xff in them, integers of every width, booleans, strings,
+	// nested structs, slices and arrays, pointers, nil / tail / ignored tags) are encoded, decoded into a fresh value of the same
+	// type and compared; the bytes are also decoded generically so that the specification can check that they are canonical
+	{
+		type s1 struct {
+			A [1]byte
+			B uint
+		}
+		type s2 struct {
+			A [2]byte
+			B [1]byte
+			C [0]byte
+			D uint8
+		}
+		type sTail struct {
+			A uint16
+			T []uint8 `rlp:"tail"`
+		}
+		type sIgn struct {
+			A uint32
+			X uint32 `rlp:"-"`
+			B [1]byte
+		}
+		type sPtr struct {
+			P *[1]byte
+			Q *uint64
+			R *s1
+		}
+		type sArr struct {
+			A [3][1]byte
+			B [2]uint16
+			C []s1
+		}
+		var vals []interface{}
+		for _, b := range []byte{0x00, 0x01, 0x7f, 0x80, 0xff} {
+			vals = append(vals, [1]byte{b}, s1{[1]byte{b}, 5}, s1{[1]byte{b}, 0}, [2]byte{b, 0}, [2]byte{0, b}, s2{[2]byte{b, b}, [1]byte{b}, [0]byte{}, b},
+				sIgn{A: uint32(b), B: [1]byte{b}}, sPtr{P: &[1]byte{b}, Q: new(uint64), R: &s1{[1]byte{b}, uint(b)}},
+				sArr{A: [3][1]byte{{b}, {0}, {b}}, B: [2]uint16{uint16(b), 0}, C: []s1{{[1]byte{b}, 1}, {[1]byte{0}, 0}}},
+				[]byte{b}, string([]byte{b}), uint8(b), uint16(b)<<8, uint64(b)<<56, b != 0, sTail{uint16(b), []uint8{b, 0, b}}, sTail{0, nil},
+				recOpt{A: b}, recOptS{A: b, S: &[2]byte{b, b}}, recOptS{A: b, U: new(uint16)}, rec3{A: uint64(b), B: []byte{b}, C: big.NewInt(int64(b)), T: []uint16{uint16(b)}})
+		}
+		for _, v := range vals {
+			ev := map[string]interface{}{"e": "tval", "type": fmt.Sprintf("%T", v), "bytes": []int{}, "err": false, "roundtrip": false, "generic": false, "term": termOf([]byte{})}
+			pn := ""
+			func() {
+				defer func() {
+					if r := recover(); r != nil {
+						pn = fmt.Sprint(r)
+					}
+				}()
+				b, err := EncodeToBytes(v)
+				ev["bytes"], ev["err"] = ints(b), err != nil
+				back := reflect.New(reflect.TypeOf(v))
+				derr := DecodeBytes(b, back.Interface())
+				want := v
+				if si, ok := v.(sIgn); ok { // an ignored field is not transported
+					si.X = 0
+					want = si
+				}
+				ev["roundtrip"] = derr == nil && reflect.DeepEqual(back.Elem().Interface(), want)
+				var g interface{}
+				if DecodeBytes(b, &g) == nil {
+					ev["generic"], ev["term"] = true, termOf(g)
+				}
+			}()
+			ev["panic"] = pn
+			w.emit(ev)
+		}
+	}
 	fmt.Printf("VERIF-STAT events=%d\n", w.n)
 }
